@@ -419,7 +419,7 @@ var defaultTypes = []string{"", "INTEGER", "INT", "REAL", "NUMERIC", "TEXT", "BL
 var defaultLiterals = []string{"7", "'7'", "-3", "'-3'", "2.5", "'2.5'", "'abc'", "x'00ff'", "NULL", "1e3", "'1e3'", "' 12 '", "9223372036854775807", "'9223372036854775808'", "TRUE", "false", "''", "0", "'0x10'", "+5", "'2006-01-02 15:04:05'", "abc", "'TRUE'"}
 
 // c01Defaults: the DEFAULT of a column added by ALTER TABLE, for every declared type x literal form, read
-// from a row stored before the ALTER: the value SQLite reports (or the table is rejected). One table per
+// from a row stored before the ALTER, from a row stored after it, and from a row that stores NULL: the value SQLite reports (or the table is rejected). One table per
 // pair, one signature per literal form.
 func c01Defaults(r *ev.Run) {
 	st := defaultsScript()
@@ -478,7 +478,8 @@ func defaultsScript() []string {
 		for _, lit := range defaultLiterals {
 			n++
 			alter = append(alter, fmt.Sprintf("CREATE TABLE d%d (id INTEGER PRIMARY KEY)", n), fmt.Sprintf("INSERT INTO d%d VALUES (1)", n),
-				fmt.Sprintf("ALTER TABLE d%d ADD COLUMN c %s DEFAULT %s", n, ty, lit), fmt.Sprintf("INSERT INTO d%d (id) VALUES (2)", n))
+				fmt.Sprintf("ALTER TABLE d%d ADD COLUMN c %s DEFAULT %s", n, ty, lit), fmt.Sprintf("INSERT INTO d%d (id) VALUES (2)", n),
+				fmt.Sprintf("INSERT INTO d%d (id, c) VALUES (3, NULL)", n)) // a NULL that is stored is not a missing column
 		}
 	}
 	return alter
